@@ -58,10 +58,13 @@ def render_dep(rels, rng):
                 if rng.random() < 0.25:
                     # a multiarch qualifier does not restrict the alternative (only a bracketed list does)
                     t += rng.choice([b":native", b":any", b":i386", b":amd64", b":all"])
+                # the blank in front of a restriction is optional ("liba-dev[amd64]", "x(>= 1.0)<!nocheck>")
                 if rng.random() < 0.3:
-                    t += b" (>= 1.0)"
+                    t += rng.choice([b" ", b"", b"  "]) + b"(>= 1.0)"
                 if lst:
-                    t += b" [" + b" ".join((b"!" if neg else b"") + x for x in lst) + b"]"
+                    t += rng.choice([b" ", b" ", b"", b"\t"]) + b"[" + b" ".join((b"!" if neg else b"") + x for x in lst) + b"]"
+                if rng.random() < 0.15:
+                    t += rng.choice([b" ", b""]) + b"<!nocheck>"
                 parts.append(t)
         out.append(b" | ".join(parts))
     sep = rng.choice([b", ", b",\n ", b" ,\n\t"])
